@@ -238,15 +238,17 @@ def trace_decoy(case, a, b):
         pass
 
 
-def no_ray_twice(v, sols, **det):
-    """The same ray (same length, same launch and arrival direction) must not be reported as two solutions."""
+def no_ray_twice(v, sols, bound_of=None, **det):
+    """The same ray (same length, same launch and arrival direction) must not be reported as two solutions.
+    bound_of(solution): absolute error bound of the closed-form integrals for that solution (mechanism observable of KF-C18-cancellation)."""
     for i in range(len(sols)):
         for j in range(i + 1, len(sols)):
             p, q = sols[i], sols[j]
             same = (abs(float(p.path_length) - float(q.path_length)) <= 1e-9 * max(float(p.path_length), 1e-9)
                     and float(np.max(np.abs(np.asarray(p.emitted_direction, float) - np.asarray(q.emitted_direction, float)))) <= 1e-9
                     and float(np.max(np.abs(np.asarray(p.received_direction, float) - np.asarray(q.received_direction, float)))) <= 1e-9)
-            v.check(not same, "no ray is reported twice", i=i, j=j, L=float(p.path_length), n_solutions=len(sols), **det)
+            v.check(not same, "no ray is reported twice", i=i, j=j, L=float(p.path_length), n_solutions=len(sols),
+                    cancellation_bound_m=float(bound_of(p)) if (bound_of is not None and same) else 0.0, **det)
 
 
 def run_stack(case, v):
@@ -292,7 +294,12 @@ def run_split(case, v):
         trace_decoy(case, a, b)
         geo["traced_after_a_medium_with_the_same_boundaries"] = True
     lay = list(LayeredRayTracer(a, b, ice).solutions)
-    no_ray_twice(v, lay, **{"from": a.tolist(), "to": b.tolist()})
+    def noise_bound(q_):
+        if not exp:
+            return 0.0
+        e_ = np.asarray(q_.emitted_direction, float)
+        return cancellation_bound(n0, k_, a_, float(full.index(float(a[2])) * np.hypot(e_[0], e_[1])), min(a[2], b[2]), 0.99999) * (1 + len(q_.paths))
+    no_ray_twice(v, lay, bound_of=noise_bound, **{"from": a.tolist(), "to": b.tolist()})
     for q in lay:
         check_chain(v, q, a, b, geo)
     def found_with_variants(L_, em_, slack_):
@@ -392,7 +399,7 @@ def kf_cancellation(case, viol):
         return rel > 1e-3 or (rel > 0 and d.get("deviation", 1e9) <= d["tolerance"] + 3 * rel)
     if viol["clause"] == "every solution of the unsplit medium has a layered counterpart":
         return d.get("cancellation_bound_m", 0.0) / max(d.get("L", 1.0), 1e-9) > 1e-3
-    if viol["clause"].startswith("extra layered solutions"):
+    if viol["clause"].startswith("extra layered solutions") or viol["clause"] == "no ray is reported twice":
         # a "solution" whose closed-form integrals carry an error bound above its whole path length is a root of round-off noise
         # (endpoints a few micrometres apart deep in a gradient layer: r(theta) is noise of 1e-6 ... 1e-2 m around rho ~ 1e-7 m)
         return d.get("cancellation_bound_m", 0.0) > max(d.get("L", 1.0), 1e-300)
